@@ -132,6 +132,7 @@ void do_plan(int tier)
     c.prefill = 0;
     c.prefill_block = 0;
     c.throw_at = -1;
+    c.functor = c.api == C01_FOR && sim_plan(3) == 0 ? 1 + (int)sim_plan(3) : 0;
     if ((lane == LANE_TBB || lane == LANE_DEBUG) && c.nested_at < 0 && !c.from_task && c.count > 0 && plan.ncalls > 1 && i + 1 < plan.ncalls && sim_plan(8) == 0) {
       c.throw_at = (int)sim_plan((uint32_t)(c.count > 64 ? 64 : c.count));
       sim_probe(P_THROWING_BODY);
@@ -176,6 +177,10 @@ void describe(char *buf, size_t n)
       k += snprintf(buf + k, n - k, ", \"called_from_task_of\": %d", c.from_task_n);
     if (c.throw_at >= 0)
       k += snprintf(buf + k, n - k, ", \"body_throws_at\": %d", c.throw_at);
+    if (c.functor) {
+      static const char *fk[] = {"", "temporary lambda owning heap state", "temporary std::function", "named function object"};
+      k += snprintf(buf + k, n - k, ", \"body_is\": \"%s\"", fk[c.functor]);
+    }
     if (c.prefill)
       k += snprintf(buf + k, n - k, ", \"scheduled_closures_before\": %d, \"workers_occupied_by_long_tasks\": %d", c.prefill, c.prefill_block);
     k += snprintf(buf + k, n - k, "}");
@@ -358,6 +363,13 @@ void c01_body_exit(int h)
 }
 
 void c01_prefill_ran(void) { sim_probe(P_PREFILL); }
+void c01_state_lost(int h, long long idx, int where)
+{
+  if (where)
+    sim_fail("C01:callers-function-object-emptied", "call %d: the named function object passed to parallel_for was emptied by the call", h);
+  else
+    sim_fail("C01:body-state-lost", "call %d: index %lld was invoked on a function object that has lost the state it was created with", h, idx);
+}
 static sem_t blocker_sem;  // modelled by the simulator; a thread blocked on it uses up none of the run's step budget
 void c01_blocker(void)
 {
